@@ -70,7 +70,7 @@ pub fn gen_hist(rng: &mut Rng, len: usize, banked_switch: bool) -> Vec<String> {
       },
       3 => {
         let a = *rng.pick(&[0x2000u16, 0x2100, 0x3fff, 0x4000, 0x5000, 0x6000, 0x0000]);
-        let v = *rng.pick(&[0u8, 1, 2, 3, 5, 0x1f, 0x20, 0x21, 0x3f, 0x40, 0x7f]);
+        let v = *rng.pick(&[0u8, 1, 2, 3, 4, 5, 8, 0x1f, 0x20, 0x21, 0x24, 0x3f, 0x40, 0x7f]);   // 4, 8, 0x24: bank numbers that wrap to bank 0 on small cartridges
         h.push(format!("w{}:{}", a, v));
       },
       _ => h.push(String::from("r")),
